@@ -1229,6 +1229,8 @@ def run_clear(spec, acc):
             acc.case(h64((ck, n, rnd)), nontrivial=True)
             if ck != 'TempoClock-stop':
                 move_case(h, acc, clock, ck, rng, rnd)
+                for _ in range(3):
+                    tie_move_case(h, acc, clock, ck, rng, rnd)
             else:
                 vid[0] += 1
                 tempo_hammer_case(h, acc, rng, vid[0])
@@ -1268,6 +1270,61 @@ def move_case(h, acc, clock, ck, rng, rnd):
     acc.count('move_cases')
     acc.count('move_cases_head_moved_earlier', int(far))
     acc.case(h64(('move', ck, rnd, earlier, far)), nontrivial=True)
+
+
+def tie_move_case(h, acc, clock, ck, rng, rnd):
+    """Exact ties: task objects scheduled with sched_abs at two instants, then
+    some of them scheduled again (moved) to one of the same instants.  A task is
+    awakened once, in order of time, ties in order of the LAST scheduling call of
+    each task."""
+    if ck == 'AppClock':
+        return          # schedules relative to a drifting present: no exact ties
+    from sc3.base.functions import Function
+    n = rng.randint(2, 6)
+    woke = []
+
+    def mk(k):
+        def f():
+            woke.append(k)
+        return Function(f)
+    items = [mk(k) for k in range(n)]
+    if ck == 'SystemClock':
+        t0, d = h.main.elapsed_time() + 0.3, 0.05
+    else:
+        t0, d = clock.elapsed_beats() + 1.0, 0.125      # tempo >= 1: <= 1 s ahead
+    last = {}
+    seq = 0
+    hist = []
+    for k in range(n):
+        t = t0 + d * rng.randint(0, 1)
+        clock.sched_abs(t, items[k])
+        last[k] = (t, seq)
+        hist.append(('sched_abs', k, round(t - t0, 6)))
+        seq += 1
+    for _ in range(rng.randint(1, 4)):
+        k = rng.randrange(n)
+        t = t0 + d * rng.randint(0, 1)
+        clock.sched_abs(t, items[k])
+        last[k] = (t, seq)
+        hist.append(('again', k, round(t - t0, 6)))
+        seq += 1
+    exp = sorted(range(n), key=lambda k: last[k])
+    t_end = time.time() + 4.0
+    while len(woke) < n and time.time() < t_end:
+        time.sleep(0.02)
+    time.sleep(0.15)
+    with h.main._main_lock:
+        got = list(woke)
+    acc.count('tie_move_cases')
+    acc.case(h64(('tie-move', ck, tuple(hist))), nontrivial=True)
+    if got != exp:
+        what = 'order' if sorted(got) == sorted(exp) else \
+            'woken-too-often' if len(got) > len(exp) else 'not-woken-in-time'
+        if what == 'not-woken-in-time' and (h.watch.max_oversleep > 0.5):
+            acc.count('late_ignored_starved')
+            return
+        acc.violation(f'C08/{what}/{ck}/moved-task-exact-tie',
+                      {'history': hist, 'expected': exp, 'got': got, 'round': rnd})
 
 
 def tempo_hammer_case(h, acc, rng, vid):
